@@ -123,11 +123,16 @@ class Mux:
         self.kind = kind
         self.net = SimNet(loop, auto=False)
         key = keypool.key(0)
-        if kind == "sim":
+        if kind in ("sim", "stats"):
             self.endpoint = SimEndpoint(self.net, ("1.0.0.1", 8000))
             self.endpoint.open_now()
-            self.entry = lambda src, data: self.endpoint.notify_listeners(
-                (self._addr(src), data))
+            raw = self.endpoint
+            self.entry = lambda src, data: raw.notify_listeners((self._addr(src), data))
+            if kind == "stats":
+                # the statistics decorator as configured by IPv8(enable_statistics=True): it listens on the raw endpoint
+                # and the overlays are built on top of it
+                from ipv8.messaging.interfaces.statistics_endpoint import StatisticsEndpoint
+                self.endpoint = StatisticsEndpoint(raw)
         else:
             from ipv8.messaging.interfaces.udp.endpoint import UDPEndpoint, UDPv6Endpoint
             self.endpoint = UDPEndpoint() if kind == "udp4" else UDPv6Endpoint()
@@ -139,6 +144,9 @@ class Mux:
             self.entry = lambda src, data: self.endpoint.datagram_received(data, src)
         self.my_peer = Peer(key, ("1.0.0.1", 8000))
         self.overlays, self.rec, self.trace, self.listeners = build_mux(loop, self.endpoint, self.my_peer, Network)
+        if kind == "stats":
+            for ov in self.overlays:
+                self.endpoint.enable_community_statistics(ov.get_prefix(), True)
         self.prefixes = {}
         for l in self.listeners:
             p = l.get_prefix() if hasattr(l, "get_prefix") else l.prefix
@@ -168,6 +176,14 @@ class Mux:
                             f"{data[:30].hex()}.. from {src}", case) from None
         prefix = bytes(data[:22])
         expected = self.prefixes.get(prefix, [])
+        if self.kind == "stats":
+            # the statistics decorator keeps listener tables of its own; which listener is reached through it is its
+            # business - here only "returns normally" (N1) and "handlers run under their own prefix" (N3) are judged
+            for ov, head in tr["handlers"]:
+                if head != ov.get_prefix():
+                    raise Violation("N3", f"handler:{type(ov).__name__}", f"a message handler of {type(ov).__name__} ran for "
+                                                                          f"a datagram with a foreign prefix", case)
+            return bool(expected)
         if rec.got != [data]:
             raise Violation("N2", "catch_all", f"the catch-all listener received the datagram {len(rec.got)} times", case)
         for l in expected:
@@ -210,7 +226,7 @@ def _node_shard(ctx: Ctx, shard: int, nshards: int, thorough: bool) -> None:
         raise HarnessError("capture corpus too small")
 
     async def main(loop):
-        muxes = [Mux(loop, "sim"), Mux(loop, "udp4"), Mux(loop, "udp6")]
+        muxes = [Mux(loop, "sim"), Mux(loop, "udp4"), Mux(loop, "udp6"), Mux(loop, "stats")]
         try:
             prefixes = sorted(muxes[0].prefixes)
             k = 0
@@ -220,9 +236,9 @@ def _node_shard(ctx: Ctx, shard: int, nshards: int, thorough: bool) -> None:
                 k += 1
                 if k % nshards != shard:
                     return
-                m = muxes[k // nshards % 3]
+                m = muxes[k // nshards % 4]
                 srcs = SOURCES6 if m.kind == "udp6" else SOURCES
-                src = srcs[(k // nshards // 3) % len(srcs)]
+                src = srcs[(k // nshards // 4) % len(srcs)]
                 case = {"node": m.kind, "src": list(src), "data": data}
                 try:
                     nt = m.judge(src, data, case)
@@ -273,7 +289,7 @@ def _hyp_node_shard(ctx: Ctx, shard: int, nshards: int, n: int) -> None:
     corpus = collect_corpus()
 
     async def main(loop):
-        muxes = {"sim": Mux(loop, "sim"), "udp4": Mux(loop, "udp4"), "udp6": Mux(loop, "udp6")}
+        muxes = {"sim": Mux(loop, "sim"), "udp4": Mux(loop, "udp4"), "udp6": Mux(loop, "udp6"), "stats": Mux(loop, "stats")}
         prefixes = sorted(muxes["sim"].prefixes)
         try:
             base = st.sampled_from(corpus)
@@ -306,7 +322,7 @@ def _hyp_node_shard(ctx: Ctx, shard: int, nshards: int, n: int) -> None:
             src4 = st.sampled_from(SOURCES) | st.tuples(st.ip_addresses(v=4).map(str), st.integers(0, 65535))
             src6 = st.sampled_from(SOURCES6) | st.tuples(st.ip_addresses(v=6).map(str), st.integers(0, 65535),
                                                           st.just(0), st.just(0))
-            case_st = st.one_of(st.tuples(st.sampled_from(["sim", "udp4"]), src4, data),
+            case_st = st.one_of(st.tuples(st.sampled_from(["sim", "udp4", "stats"]), src4, data),
                                 st.tuples(st.just("udp6"), src6, data))
 
             def body(c):
